@@ -59,7 +59,7 @@ def run(ctx):
     ff = ctx.flow('Container.create_solution_from')
     transfers = [(c, s, b) for c, s, b in ff.calls if is_call_to(c, 'transfer')]
     ctors = [(c, s, b) for c, s, b in ff.calls if isinstance(c.func, ast.Name) and c.func.id == 'Container']
-    floor(ctx, 'aliquot transfers in create_solution_from', len(transfers), 3)
+    floor(ctx, 'aliquot transfers in create_solution_from', len(transfers), 2)
     for c, s, b in transfers:
         src = strip_refs(c.args[0])
         # the source of an aliquot is the stock / the solvent container given by the caller (possibly already depleted)
